@@ -134,7 +134,7 @@ def generate(tier, seed):
         cases.append(dict(op='rev', enc=enc, rows=[]))
         cases.append(dict(op='rev', enc=enc, rows=['', '']))
         cases.append(dict(op='rev', enc=enc, rows=['', ALPH[enc], '']))
-        for i in range(25 if quick else 250):
+        for i in range(25 if quick else 150):
             n = rng.randint(1, 6)
             rows = [rstr(rng.choice([0, 1, 2, 5, 9, 17, 30]) if rng.random() < 0.5 else rng.randint(0, 12),
                          ALPH[enc] if i % 3 else ALPH[enc].upper()) for _ in range(n)]
@@ -142,7 +142,7 @@ def generate(tier, seed):
 
     # ---- rev on lazy views (input built by prior indexing, fresh per call)
     for enc in (0, 1, 2):
-        for i in range(6 if quick else 40):
+        for i in range(6 if quick else 20):
             n = rng.randint(3, 7)
             base = [rstr(rng.choice([0, 1, 2, 4, 7, 12]), ALPH[enc] if (i % 2 or enc) else ALPH[enc].upper()) for _ in range(n)]
             for v in _views(rng, n):
@@ -172,7 +172,7 @@ def generate(tier, seed):
         for v in _views(rng, n, col=3, with_rc=True):
             cases.append(dict(op='tr', rows=base, view=v))
     if not quick:
-        triples = [''.join(rng.choice(CODONS) for _ in range(3)) for _ in range(12800)]
+        triples = [''.join(rng.choice(CODONS) for _ in range(3)) for _ in range(6400)]
         for rows in _pack(triples, 64):
             cases.append(dict(op='tr', rows=rows))
 
